@@ -224,6 +224,22 @@ pub fn run(ctx: &Ctx) -> (Stats, Spec) {
         st.merge(crate::report::merge_all(parts));
     }
     st.exhaustive.push(format!("every character string of length <= {} over the 16 characters `< = > - & a n d 1 \" {{ }} [ ] space '` (token lists compared too)", clen));
+    // (a') grammar-directed: every sentence whose tree has <= 2 operator nodes over {a, b} (every node kind,
+    //      repeated list entries, empty lists) — sentences of 7+ tokens that the sequence enumeration cannot reach
+    for k in 0..=2usize {
+        let parts = util::par_jobs(jobs, |job| {
+            let mut st = Stats::new();
+            for (i, t) in super::common::enum_trees(k).iter().enumerate() {
+                if i % jobs == job {
+                    check_text(&mut st, &gen::render_plain(t), false, "enumerated-sentences");
+                    st.bump("enumerated_sentences");
+                }
+            }
+            st
+        });
+        st.merge(crate::report::merge_all(parts));
+    }
+    st.exhaustive.push("every sentence whose syntax tree has <= 2 operator nodes over the names a, b (lists <= 2 entries incl. repeated ones, constants <= 2)".into());
     // (c) random, mutated, spliced
     let iters = ctx.tier.pick(6_000u64, 600_000u64);
     let parts = util::par_jobs(16, |job| random_job(ctx, job, iters));
